@@ -27,6 +27,9 @@ def run_impl(line):
         if op in ('des.enc', 'des.dec'):
             d = D.DES(unhx(a[0]))
             return hx(d.enc(unhx(a[1])) if op == 'des.enc' else d.dec(unhx(a[1])))
+        if op in ('des.len.enc', 'des.len.dec'):
+            d = D.DES(unhx(a[0]))
+            return str(len(d.enc(unhx(a[1])) if op == 'des.len.enc' else d.dec(unhx(a[1]))))
         if op == 'des.rt.de':
             d = D.DES(unhx(a[0])); return hx(d.dec(d.enc(unhx(a[1]))))
         if op == 'des.rt.ed':
@@ -39,6 +42,8 @@ def run_impl(line):
             else: o = D.TDEA(k1, k2, k3)
             if op == 'tdea.enc': return hx(o.enc(m))
             if op == 'tdea.dec': return hx(o.dec(m))
+            if op == 'tdea.len.enc': return str(len(o.enc(m)))
+            if op == 'tdea.len.dec': return str(len(o.dec(m)))
             if op == 'tdea.rt.de': return hx(o.dec(o.enc(m)))
             if op == 'tdea.rt.ed': return hx(o.enc(o.dec(m)))
         if op in ('des.IP', 'des.IPinv', 'des.PC1', 'des.PC2', 'des.E', 'des.P'):
@@ -166,8 +171,11 @@ WITNESS_24 = 'tdea.enc x0123456789abcdef23456789abcdef01456789abcdef0123 None No
 def des_core_cases(tier, rng, ops=('des.enc', 'des.dec')):
     q = tier == 'quick'
     for k, p, c in R.KAT:
-        yield 'des.enc x%s x%s' % (k.lower(), p.lower()), 'des.kat'
-        yield 'des.dec x%s x%s' % (k.lower(), c.lower()), 'des.kat'
+        if 'des.enc' in ops:
+            yield 'des.enc x%s x%s' % (k.lower(), p.lower()), 'des.kat'
+            yield 'des.dec x%s x%s' % (k.lower(), c.lower()), 'des.kat'
+        else:
+            for op in ops: yield '%s x%s x%s' % (op, k.lower(), p.lower()), 'des.kat'
     blocks = [bytes(8), b'\xff' * 8, bytes.fromhex('0123456789ABCDEF')]
     for k in special_keys(rng):
         for m in blocks + [rb(rng, 8) for _ in range(2 if q else 8)]:
@@ -195,7 +203,7 @@ def size_cases(rng, ops):
 
 def tdea_cases(tier, rng, ops=('tdea.enc', 'tdea.dec')):
     q = tier == 'quick'
-    yield WITNESS_24, 'tdea.witness24'
+    for op in ops: yield WITNESS_24.replace('tdea.enc', op), 'tdea.witness24'
     keysets = [(rb(rng, 8), rb(rng, 8), rb(rng, 8)) for _ in range(6 if q else 60)]
     keysets += [(R.WEAK[0], R.WEAK[1], R.WEAK[2]), (R.SEMIWEAK[0], R.SEMIWEAK[1], R.SEMIWEAK[0]), (bytes(8), b'\xff' * 8, bytes(8)),
                 (bytes.fromhex('0123456789ABCDEF'), bytes.fromhex('23456789ABCDEF01'), bytes.fromhex('456789ABCDEF0123'))]
